@@ -557,6 +557,13 @@ def generate_all(base_build_dir):
     pr = translate_params.generate(base_build_dir)
     out["param_obligations"] = pr["obligations"]
     out["param_failures"] = pr["failures"]
+    # Edwards formulas (C17): translated from the 255-bit configurations; kept apart so that they only count for C17
+    try:
+        import translate_ed
+        er = translate_ed.generate()
+        out["ed_obligations"], out["ed_failures"] = er["obligations"], er["failures"]
+    except Exception as e:  # noqa: BLE001
+        out["ed_obligations"], out["ed_failures"] = [], ["Edwards translator: %r" % (e,)]
     return out
 
 
